@@ -99,7 +99,11 @@ def _evaluate_xml_string_validity(xml_string):
 
     # perform the various sicd structure checks
     the_sicd = SICDType.from_node(root_node, xml_ns=xml_ns)
-    valid_sicd_contents = the_sicd.is_valid(recursive=True, stack=False)
+    try:
+        valid_sicd_contents = the_sicd.is_valid(recursive=True, stack=False)
+    except Exception:
+        logger.exception('SICD: The structure checks could not be completed')
+        valid_sicd_contents = False
     return valid_xml & valid_sicd_contents, sicd_urn, the_sicd
 
 
@@ -258,6 +262,10 @@ def check_sicd_file(nitf_details):
 
     def check_image_data():
         # type: () -> bool
+
+        if the_sicd.ImageData is None:
+            logger.error('SICD: ImageData is not populated, so the image segments cannot be checked')
+            return False
 
         # get pixel type
         pixel_type = the_sicd.ImageData.PixelType
